@@ -916,9 +916,14 @@ def ml_gmm_m_step(
     #      = 1/n * sum (Pxx) - mean^2
     if update_variances:
         logger.debug("Update variances.")
-        machine.variances = statistics.sum_pxx / thresholded_n[
-            :, None
-        ] - np.power(machine.means, 2)
+        # The means in force may be frozen (update_means=False): use the
+        # general form sum(P(x-mean)^2)/n, which equals sum(Pxx)/n - mean^2 only
+        # when the means are the ones just re-estimated from these statistics
+        machine.variances = (
+            statistics.sum_pxx
+            - 2 * machine.means * statistics.sum_px
+            + thresholded_n[:, None] * np.power(machine.means, 2)
+        ) / thresholded_n[:, None]
 
 
 def map_gmm_m_step(
